@@ -6,7 +6,7 @@ import os, re, sys, json, shutil, subprocess, tempfile, hashlib
 from concurrent.futures import ThreadPoolExecutor
 ENV=dict(os.environ, GOFLAGS='-mod=mod', GOPROXY='off')
 def props(f):
-    for pre,ids in (('pipe/fork/','C09 C10 C06'),('pipe/unbound.go','C08'),('pipe/','C05 C06 C07 C11 C12 C13'),('hseq/','C03 C01'),
+    for pre,ids in (('pipe/fork/','C09 C10 C06'),('pipe/unbound.go','C08'),('pipe/queue.go','C08'),('pipe/','C05 C06 C07 C11 C12 C13'),('hseq/','C03 C01'),
                     ('optics/iso.go','C04'),('optics/shape.go','C04'),('optics/','C01 C02 C04'),('trait/seq/','C14'),('trait/pair/','C15'),('duct/','C16'),('pure/','C17'),
                     ('internal/seq/','C19'),('internal/maplike/','C18'),('internal/pipe/','C20')):
         if f.startswith(pre): return ids.split()
